@@ -307,6 +307,16 @@ def token_spec(rng, idx):
         entries.append({"kind": "struct", "indent": "", "name": "Zq%dsta" % idx, "over": over})
     for _ in range(rng.randint(2, 5)):
         add_fn("")
+    if rng.random() < 0.4:
+        # "block: True" groups declarations under common options; blocks nest
+        entries.append({"kind": "cont", "what": "block", "indent": "", "name": "zq%dblka" % idx,
+                        "over": cont_over() or {"python": False}, "depth": 1})
+        add_fn("  ", allow_overload=False)
+        if rng.random() < 0.7:
+            entries.append({"kind": "cont", "what": "block", "indent": "  ", "name": "zq%dblkb" % idx,
+                            "over": cont_over(), "depth": 2})
+            for _ in range(rng.randint(1, 2)):
+                add_fn("    ", allow_overload=False)
     if rng.random() < 0.6:
         add_class(1)
     if rng.random() < 0.3:
@@ -343,7 +353,9 @@ def render_token_library(spec, wp, wl):
             while stack and stack[-1][0] >= d:
                 stack.pop()
             base = dict(stack[-1][2]) if stack else dict(lf)
-            if e.get("template"):
+            if e["what"] == "block":
+                lines.append("%s- block: True" % e["indent"])
+            elif e.get("template"):
                 lines.append("%s- decl: template<typename T> class %s" % (e["indent"], e["name"]))
                 lines.append("%s  cxx_template:" % e["indent"])
                 lines.append("%s  - instantiation: <int>" % e["indent"])
@@ -437,8 +449,8 @@ def render_token_library(spec, wp, wl):
             cur["shape"] = "overload"
     for name in [n for n, t in tokens.items() if t["shape"] in ("namespace", "class") and not t["members"]]:
         del tokens[name]
-    for name in [n for n, t in tokens.items() if t["shape"] == "class-template"]:
-        del tokens[name]  # instantiations carry derived names; only the methods are asserted
+    for name in [n for n, t in tokens.items() if t["shape"] in ("class-template", "block")]:
+        del tokens[name]  # (instantiations carry derived names, blocks have no name: only members are asserted)
     return "\n".join(lines) + "\n", lf, tokens, sorted(on_langs)
 
 
@@ -531,7 +543,9 @@ def family_jobs(seeds, nfam, bases, patterns=None, label="c15fam", round_robin=F
             argv = list(base.meta.get("cmdline", [])) + ["--path", IN_DIR] + dargv + [
                 "--option", "debug_testsuite=true", "--nowrite-version"]
             for lang, v in zip(LANGS, vec):
-                argv += ["--option", "wrap_%s=%s" % (lang, "true" if v else "false")]
+                # both documented spellings of a boolean on the command line
+                spell = (("true", "True"), ("false", "False"))[0 if v else 1][(i + len(lang)) % 2]
+                argv += ["--option", "wrap_%s=%s" % (lang, spell)]
             argv += extra + ["--cfiles", lists["cfiles"], "--ffiles", lists["ffiles"], ypath]
             flags, nested_on = library_flags(base.files[ypath], argv)
             jid = "%s/%s" % (fam, "".join("1" if v else "0" for v in vec))
